@@ -382,6 +382,156 @@ fn scratch_dir() -> String {
     d
 }
 
+/// run the binary on a command line given as bytes (not necessarily UTF-8), stdin empty
+fn run_raw(bin: &str, args: &[Vec<u8>], ceiling: Duration) -> super::c15::ProcOut {
+    use std::os::unix::ffi::OsStringExt;
+    use std::os::unix::process::ExitStatusExt;
+    use std::process::{Command, Stdio};
+    let os: Vec<std::ffi::OsString> = args.iter().map(|a| std::ffi::OsString::from_vec(a.clone())).collect();
+    let mut out = super::c15::ProcOut::default();
+    let mut child = match Command::new(bin).args(&os).env("RUST_BACKTRACE", "0").env_remove("RUST_LOG").stdin(Stdio::null()).stdout(Stdio::piped()).stderr(Stdio::piped()).spawn() {
+        Ok(c) => c,
+        Err(e) => {
+            out.stderr = format!("spawn failed: {}", e);
+            return out;
+        }
+    };
+    // a rejected command line prints a few lines: the pipes cannot fill up; a child that does not
+    // end within the ceiling is killed and reported as timed out
+    let t0 = Instant::now();
+    loop {
+        match child.try_wait() {
+            Ok(Some(_)) => break,
+            Ok(None) if t0.elapsed() > ceiling => {
+                out.timed_out = true;
+                let _ = child.kill();
+                break;
+            }
+            Ok(None) => std::thread::sleep(Duration::from_millis(5)),
+            Err(_) => break,
+        }
+    }
+    if let Ok(o) = child.wait_with_output() {
+        out.status = o.status.code();
+        out.signal = if out.timed_out { None } else { o.status.signal() };
+        out.stdout = o.stdout;
+        out.stderr = String::from_utf8_lossy(&o.stderr).to_string();
+    }
+    out
+}
+
+/// Command lines with an INVALID value of `-o` / `--format` / `-m`, or that are not UTF-8: each must
+/// be answered by an error message and a clean non-zero exit.  A fixed part (one per kind of text)
+/// and `ngen` values composed from the same pieces with `seed` (the same list in every shard).
+/// Every value here names no output mode / is no format string for the unchanged tool (probed);
+/// valid look-alikes (`format=é`, `json=`, `legacy=`) are deliberately absent.
+fn invalid_value_lines(seed: u64, ngen: usize) -> Vec<(String, Vec<Vec<u8>>)> {
+    // characters whose lower- or upper-case form has another UTF-8 length, or more than one char
+    const CASE_LEN: &[&str] = &["\u{212A}", "\u{2126}", "\u{130}", "\u{1E9E}", "\u{DF}", "\u{FB01}", "\u{149}", "\u{23A}", "\u{1F88}"];
+    // same length in either case, combining marks, 4-byte characters, invisible ones
+    const OTHER: &[&str] = &["\u{E9}", "\u{C9}", "a\u{301}", "\u{301}", "\u{1F600}", "\u{1D518}", "\u{200B}", "\u{FEFF}", "\u{A0}", "\u{10400}", "\u{3A3}"];
+    const CTRL: &[&str] = &["\t", "\n", "\r", "\u{1b}[31m", "\u{7f}", "\u{1}", "\u{85}"];
+    const MODES: &[&str] = &["json", "logfmt", "legacy", "format"];
+    let mut o_values: Vec<String> = vec![];
+    // non-ASCII before and after `=`
+    for c in CASE_LEN.iter().take(6) {
+        o_values.push(format!("{}=x", c));
+    }
+    o_values.push("\u{2126}=\u{E9}".into());
+    o_values.push("\u{130}=\u{E9}".into());
+    o_values.push("\u{130}\u{130}=x".into());
+    o_values.push("x=\u{212A}".into());
+    o_values.push("\u{E9}=\u{E9}".into());
+    o_values.push("a\u{301}=\u{301}".into());
+    o_values.push("\u{1F600}=\u{1F600}".into());
+    o_values.push("\u{1D518}=x".into());
+    // … and without `=`, glued to a mode name
+    o_values.push("\u{130}".into());
+    o_values.push("json\u{212A}".into());
+    o_values.push("\u{FEFF}json".into());
+    o_values.push("format\u{212A}={a}".into());
+    o_values.push("\u{212A}=format={a}".into());
+    // `format=` followed by non-ASCII text that is no format string
+    o_values.push("format={\u{E9}".into());
+    o_values.push("format={a}}\u{130}".into());
+    // empty pieces
+    for v in ["=", "=x", "x=", "==", "", " =json"] {
+        o_values.push(v.into());
+    }
+    // control characters
+    for v in ["js\ton", "json\n", "\u{1b}[31m=x", "\u{7f}=\u{1}"] {
+        o_values.push(v.into());
+    }
+    // very long (one argument may have up to 128 KiB)
+    o_values.push("x".repeat(100_000));
+    o_values.push(format!("{}=x", "\u{212A}".repeat(20_000)));
+    o_values.push(format!("format={{{}", "y".repeat(50_000)));
+    let mut r = crate::rng::Rng::new(seed ^ 0xC17_A865);
+    let piece = |r: &mut crate::rng::Rng| -> String {
+        let mut s = String::new();
+        for _ in 0..r.below(4) {
+            match r.below(10) {
+                0..=3 => s.push_str(r.pick(CASE_LEN)),
+                4..=6 => s.push_str(r.pick(OTHER)),
+                7 => s.push_str(r.pick(CTRL)),
+                8 => s.push_str(r.pick(MODES)),
+                _ => s.push_str(r.pick(&["x", "J", " ", "-", "{", "}"])),
+            }
+        }
+        s
+    };
+    let mut n = 0;
+    let mut tries = 0;
+    while n < ngen && tries < ngen * 20 {
+        tries += 1;
+        let pre = piece(&mut r);
+        // a valid mode name before `=` could make the value valid: the name must not be one
+        if MODES.contains(&pre.as_str()) {
+            continue;
+        }
+        let v = if r.chance(85) { format!("{}={}", pre, piece(&mut r)) } else { pre };
+        if o_values.contains(&v) {
+            continue;
+        }
+        o_values.push(v);
+        n += 1;
+    }
+    let b = |s: &str| s.as_bytes().to_vec();
+    let mut lines: Vec<(String, Vec<Vec<u8>>)> = vec![];
+    for (i, v) in o_values.iter().enumerate() {
+        // the three spellings of the option in turn
+        let (sp, args) = match i % 3 {
+            0 => ("-o", vec![b("*"), b("-o"), b(v)]),
+            1 => ("--output=", vec![b("*"), b(&format!("--output={}", v))]),
+            _ => ("-oV", vec![b("-o"), b(v), b("*")]),
+        };
+        // `-o ''` attached is `-o` followed by the query: another command line
+        let args = if v.is_empty() { vec![b("*"), b("-o"), b("")] } else { args };
+        lines.push((format!("args/o-value/{}:{}:{}", i, sp, v.escape_default().to_string().chars().take(48).collect::<String>()), args));
+    }
+    // the deprecated format flag, both spellings
+    let f_values: Vec<String> = vec!["".into(), "{\u{212A}".into(), "\u{212A}={".into(), "{a}}\u{130}".into(), "{a{b}}\u{E9}".into(), "\u{1F600}}".into(), format!("{{{}", "y".repeat(50_000))];
+    for (i, v) in f_values.iter().enumerate() {
+        let flag = if i % 2 == 0 { "--format" } else { "-m" };
+        lines.push((format!("args/format-value/{}:{}:{}", i, flag, v.escape_default().to_string().chars().take(48).collect::<String>()), vec![b("*"), b(flag), b(v)]));
+    }
+    // not UTF-8: the query, the values, a file name, an option name
+    let raw: Vec<(&str, Vec<Vec<u8>>)> = vec![
+        ("query", vec![vec![0xff, 0xfe]]),
+        ("query-truncated-char", vec![b"* | json \xe2\x84".to_vec(), b("-o"), b("json")]),
+        ("o-value", vec![b("*"), b("-o"), b"json\xff".to_vec()]),
+        ("o-value-after-kelvin", vec![b("*"), b("-o"), b"\xe2\x84\xaa=\xff".to_vec()]),
+        ("format-value", vec![b("*"), b("--format"), b"{a}\xff".to_vec()]),
+        ("m-value", vec![b("*"), b("-m"), vec![0xc3]]),
+        ("file-name", vec![b("*"), b("--file"), b"/verif/harness/target/scratch/does-not-exist-\xff".to_vec()]),
+        ("option-name", vec![b("*"), b"--outp\xff".to_vec()]),
+    ];
+    for (name, args) in raw {
+        lines.push((format!("args/not-utf8/{}", name), args));
+    }
+    lines
+}
+
 fn check_binary(ctx: &mut Ctx, w: &mut Witnesses) {
     #[derive(Clone)]
     struct Job {
@@ -392,6 +542,8 @@ fn check_binary(ctx: &mut Ctx, w: &mut Witnesses) {
         close_after: Option<usize>,
         /// what the model says: "exits", "endless", "read-error", "usage"
         expect: &'static str,
+        /// the command line as bytes when it is not valid UTF-8 (then `args` is its lossy text)
+        raw: Option<Vec<Vec<u8>>>,
     }
     let mut jobs: Vec<Job> = vec![];
     let finite: Vec<u8> = input_lines(20000).concat();
@@ -414,41 +566,48 @@ fn check_binary(ctx: &mut Ctx, w: &mut Witnesses) {
         ks.sort();
         ks.dedup();
         for k in ks {
-            jobs.push(Job { name: format!("closed/record/{}/finite/k={}", mname, k), args: sv(&["* | json", "-o", mode]), endless: false, input: finite.clone(), close_after: Some(k), expect: "exits" });
-            jobs.push(Job { name: format!("closed/record/{}/endless/k={}", mname, k), args: sv(&["* | json", "-o", mode]), endless: true, input: block.clone(), close_after: Some(k), expect: "exits" });
+            jobs.push(Job { name: format!("closed/record/{}/finite/k={}", mname, k), args: sv(&["* | json", "-o", mode]), endless: false, input: finite.clone(), close_after: Some(k), expect: "exits", raw: None });
+            jobs.push(Job { name: format!("closed/record/{}/endless/k={}", mname, k), args: sv(&["* | json", "-o", mode]), endless: true, input: block.clone(), close_after: Some(k), expect: "exits", raw: None });
         }
         for k in [0usize, 3] {
-            jobs.push(Job { name: format!("closed/aggregate/{}/finite/k={}", mname, k), args: sv(&["* | json | count by n", "-o", mode]), endless: false, input: finite.clone(), close_after: Some(k), expect: "exits" });
+            jobs.push(Job { name: format!("closed/aggregate/{}/finite/k={}", mname, k), args: sv(&["* | json | count by n", "-o", mode]), endless: false, input: finite.clone(), close_after: Some(k), expect: "exits", raw: None });
         }
     }
     // slow endless input (a line every 120 ms, so the renderer idles between rows): the write error
     // of the first row after the consumer went away must end the run — it must not be lost in a
     // buffer or swallowed by an idle-time flush
     for (mname, mode) in MODES {
-        jobs.push(Job { name: format!("closed/record/{}/slow-endless/k=1", mname), args: sv(&["* | json", "-o", mode]), endless: true, input: block.clone(), close_after: Some(1), expect: "exits-slow" });
+        jobs.push(Job { name: format!("closed/record/{}/slow-endless/k=1", mname), args: sv(&["* | json", "-o", mode]), endless: true, input: block.clone(), close_after: Some(1), expect: "exits-slow", raw: None });
     }
-    jobs.push(Job { name: "closed/record/where/slow-endless/k=1".into(), args: sv(&["* | json | where n >= 0 | fields n", "-o", "logfmt"]), endless: true, input: block.clone(), close_after: Some(1), expect: "exits-slow" });
+    jobs.push(Job { name: "closed/record/where/slow-endless/k=1".into(), args: sv(&["* | json | where n >= 0 | fields n", "-o", "logfmt"]), endless: true, input: block.clone(), close_after: Some(1), expect: "exits-slow", raw: None });
     // rows larger than stdout's line buffer, -o json
     // rows larger than a pipe buffer: the write is blocked *inside* a row when the consumer goes away
-    jobs.push(Job { name: "closed/record/json-rows-70000B/finite/k=10".into(), args: sv(&["* | json", "-o", "json"]), endless: false, input: big_row_input(60, 70000), close_after: Some(10), expect: "exits" });
-    jobs.push(Job { name: "closed/record/logfmt-rows-70000B/finite/k=10".into(), args: sv(&["* | json", "-o", "logfmt"]), endless: false, input: big_row_input(60, 70000), close_after: Some(10), expect: "exits" });
+    jobs.push(Job { name: "closed/record/json-rows-70000B/finite/k=10".into(), args: sv(&["* | json", "-o", "json"]), endless: false, input: big_row_input(60, 70000), close_after: Some(10), expect: "exits", raw: None });
+    jobs.push(Job { name: "closed/record/logfmt-rows-70000B/finite/k=10".into(), args: sv(&["* | json", "-o", "logfmt"]), endless: false, input: big_row_input(60, 70000), close_after: Some(10), expect: "exits", raw: None });
     // rows larger than stdout's 1 KiB line buffer: whether EPIPE arrives inside a row is a race
-    jobs.push(Job { name: "closed/record/json-rows-5000B/finite/k=10".into(), args: sv(&["* | json", "-o", "json"]), endless: false, input: big_row_input(400, 5000), close_after: Some(10), expect: "exits" });
+    jobs.push(Job { name: "closed/record/json-rows-5000B/finite/k=10".into(), args: sv(&["* | json", "-o", "json"]), endless: false, input: big_row_input(400, 5000), close_after: Some(10), expect: "exits", raw: None });
     // endless input, nothing (more) to send
-    jobs.push(Job { name: "closed/where-false/endless".into(), args: sv(&["* | json | where n > 100000", "-o", "logfmt"]), endless: true, input: block.clone(), close_after: Some(0), expect: "endless" });
-    jobs.push(Job { name: "closed/limit-1/endless".into(), args: sv(&["* | json | limit 1", "-o", "logfmt"]), endless: true, input: block.clone(), close_after: Some(3), expect: "endless" });
-    jobs.push(Job { name: "closed/aggregate/endless".into(), args: sv(&["* | json | count", "-o", "logfmt"]), endless: true, input: block.clone(), close_after: Some(0), expect: "endless" });
+    jobs.push(Job { name: "closed/where-false/endless".into(), args: sv(&["* | json | where n > 100000", "-o", "logfmt"]), endless: true, input: block.clone(), close_after: Some(0), expect: "endless", raw: None });
+    jobs.push(Job { name: "closed/limit-1/endless".into(), args: sv(&["* | json | limit 1", "-o", "logfmt"]), endless: true, input: block.clone(), close_after: Some(3), expect: "endless", raw: None });
+    jobs.push(Job { name: "closed/aggregate/endless".into(), args: sv(&["* | json | count", "-o", "logfmt"]), endless: true, input: block.clone(), close_after: Some(0), expect: "endless", raw: None });
     // unreadable inputs and invalid command lines
     let dir = scratch_dir();
-    jobs.push(Job { name: "file/missing".into(), args: sv(&["*", "--file", "/verif/harness/target/scratch/does-not-exist"]), endless: false, input: vec![], close_after: None, expect: "usage" });
-    jobs.push(Job { name: "file/directory".into(), args: sv(&["*", "--file", &dir]), endless: false, input: vec![], close_after: None, expect: "read-error" });
-    jobs.push(Job { name: "args/unknown-flag".into(), args: sv(&["*", "--no-such-flag"]), endless: false, input: vec![], close_after: None, expect: "usage" });
-    jobs.push(Job { name: "args/output-bogus".into(), args: sv(&["*", "-o", "bogus"]), endless: false, input: vec![], close_after: None, expect: "usage" });
-    jobs.push(Job { name: "args/output-format-empty".into(), args: sv(&["*", "-o", "format="]), endless: false, input: vec![], close_after: None, expect: "usage" });
-    jobs.push(Job { name: "args/output-and-format".into(), args: sv(&["*", "-o", "json", "--format", "x"]), endless: false, input: vec![], close_after: None, expect: "usage" });
-    jobs.push(Job { name: "args/no-query".into(), args: vec![], endless: false, input: vec![], close_after: None, expect: "usage" });
-    jobs.push(Job { name: "args/bad-query".into(), args: sv(&["* | nosuchoperator"]), endless: false, input: vec![], close_after: None, expect: "usage" });
-    jobs.push(Job { name: "args/bad-format-string".into(), args: sv(&["*", "-o", "format={unclosed"]), endless: false, input: vec![], close_after: None, expect: "usage" });
+    jobs.push(Job { name: "file/missing".into(), args: sv(&["*", "--file", "/verif/harness/target/scratch/does-not-exist"]), endless: false, input: vec![], close_after: None, expect: "usage", raw: None });
+    jobs.push(Job { name: "file/directory".into(), args: sv(&["*", "--file", &dir]), endless: false, input: vec![], close_after: None, expect: "read-error", raw: None });
+    jobs.push(Job { name: "args/unknown-flag".into(), args: sv(&["*", "--no-such-flag"]), endless: false, input: vec![], close_after: None, expect: "usage", raw: None });
+    jobs.push(Job { name: "args/output-bogus".into(), args: sv(&["*", "-o", "bogus"]), endless: false, input: vec![], close_after: None, expect: "usage", raw: None });
+    jobs.push(Job { name: "args/output-format-empty".into(), args: sv(&["*", "-o", "format="]), endless: false, input: vec![], close_after: None, expect: "usage", raw: None });
+    jobs.push(Job { name: "args/output-and-format".into(), args: sv(&["*", "-o", "json", "--format", "x"]), endless: false, input: vec![], close_after: None, expect: "usage", raw: None });
+    jobs.push(Job { name: "args/no-query".into(), args: vec![], endless: false, input: vec![], close_after: None, expect: "usage", raw: None });
+    jobs.push(Job { name: "args/bad-query".into(), args: sv(&["* | nosuchoperator"]), endless: false, input: vec![], close_after: None, expect: "usage", raw: None });
+    jobs.push(Job { name: "args/bad-format-string".into(), args: sv(&["*", "-o", "format={unclosed"]), endless: false, input: vec![], close_after: None, expect: "usage", raw: None });
+    // invalid values of -o / --format / -m (text a shell passes on unchanged: non-ASCII, empty
+    // pieces, control characters, very long) and command lines that are not UTF-8
+    for (name, args) in invalid_value_lines(ctx.seed, if ctx.thorough() || w.only.is_some() { 120 } else { 8 }) {
+        let text: Vec<String> = args.iter().map(|a| String::from_utf8_lossy(a).to_string()).collect();
+        let raw = if args.iter().all(|a| std::str::from_utf8(a).is_ok()) { None } else { Some(args) };
+        jobs.push(Job { name, args: text, endless: false, input: vec![], close_after: None, expect: "usage", raw });
+    }
 
     // endless-and-never-stopping jobs cost the full ceiling: spread them first
     jobs.sort_by_key(|j| if j.expect == "endless" { 0 } else { 1 });
@@ -474,8 +633,13 @@ fn check_binary(ctx: &mut Ctx, w: &mut Witnesses) {
             Feed::Finite(j.input.clone())
         };
         let t0 = Instant::now();
-        let o = run_proc(&bin, &j.args, feed, j.close_after, 0, CEILING);
-        let info = json!({"case": j.name, "args": j.args, "input": if j.endless { "endless" } else { "finite" }, "input_bytes_per_round": j.input.len(),
+        let o = match &j.raw {
+            Some(raw) => run_raw(&bin, raw, CEILING),
+            None => run_proc(&bin, &j.args, feed, j.close_after, 0, CEILING),
+        };
+        // long values are cut in the report; the case name and the seed re-create them
+        let shown: Vec<String> = j.args.iter().map(|a| if a.len() > 300 { format!("{}… ({} bytes)", a.chars().take(60).collect::<String>(), a.len()) } else { a.clone() }).collect();
+        let info = json!({"case": j.name, "args": shown, "args_hex": j.raw.as_ref().map(|r| r.iter().map(|a| hexb(&a[..a.len().min(200)])).collect::<Vec<String>>()), "input": if j.endless { "endless" } else { "finite" }, "input_bytes_per_round": j.input.len(),
                           "close_stdout_after": j.close_after, "proc": o.summary(), "wall_s": t0.elapsed().as_secs_f64()});
         let key = format!("bin:{}", j.name);
         let clean = !o.timed_out && !o.crashed() && o.error_lines() <= 1 && o.stderr.lines().count() <= 12;
